@@ -1179,7 +1179,12 @@ carquet_status_t carquet_read_next_page(
     int16_t* def_levels,
     int16_t* rep_levels,
     int64_t* values_read,
+    int64_t* non_null_read,
     carquet_error_t* error) {
+
+    if (non_null_read) {
+        *non_null_read = 0;
+    }
 
     if (!reader || !values || !values_read) {
         CARQUET_SET_ERROR(error, CARQUET_ERROR_INVALID_ARGUMENT, "NULL argument");
@@ -1198,6 +1203,7 @@ carquet_status_t carquet_read_next_page(
         if (status != CARQUET_OK) {
             return status;
         }
+        reader->page_non_null_read = 0;
     }
 
     /* Calculate how many values to return from the current page */
@@ -1207,11 +1213,25 @@ carquet_status_t carquet_read_next_page(
         to_copy = available;
     }
 
-    /* Copy values from decoded buffers */
+    /* Copy values from decoded buffers. Levels are stored one per row, but
+     * decoded_values is dense (non-null values only), so the value cursor is
+     * the number of non-null rows delivered so far, not the row cursor. */
     size_t value_size = get_value_size(reader->type, reader->type_length);
-    size_t offset = (size_t)reader->page_values_read * value_size;
+    int32_t dense_offset = reader->page_values_read;
+    int32_t dense_count = to_copy;
+    if (reader->max_def_level > 0) {
+        dense_offset = reader->page_non_null_read;
+        dense_count = 0;
+        for (int32_t i = 0; i < to_copy; i++) {
+            if (reader->decoded_def_levels[reader->page_values_read + i] ==
+                reader->max_def_level) {
+                dense_count++;
+            }
+        }
+    }
+    size_t offset = (size_t)dense_offset * value_size;
 
-    memcpy(values, (uint8_t*)reader->decoded_values + offset, (size_t)to_copy * value_size);
+    memcpy(values, (uint8_t*)reader->decoded_values + offset, (size_t)dense_count * value_size);
 
     if (def_levels) {
         memcpy(def_levels, reader->decoded_def_levels + reader->page_values_read,
@@ -1224,8 +1244,12 @@ carquet_status_t carquet_read_next_page(
 
     /* Update state */
     reader->page_values_read += to_copy;
+    reader->page_non_null_read += dense_count;
     reader->values_remaining -= to_copy;
     *values_read = to_copy;
+    if (non_null_read) {
+        *non_null_read = dense_count;
+    }
 
     return CARQUET_OK;
 }
